@@ -35,7 +35,7 @@ print(c)")
   # so that /repo stays untouched while other runs use it
   if [ -n "$EVAL_COPY" ]; then
     git -C $wt apply $m/patch.diff
-    out=$(cd /verif && VERIF_REPO=$wt ./check $prop quick --budget $budget 2>&1); rc_check=$?
+    out=$(cd ${VERIF_DIR:-/verif} && VERIF_REPO=$wt ./check $prop quick --budget $budget 2>&1); rc_check=$?
     git -C $wt checkout -q -- . && git -C $wt clean -fdq
   else
     git -C /repo apply $m/patch.diff || { echo "$prop $name: does not apply to /repo"; continue; }
